@@ -3,3 +3,6 @@ pub mod duplex;
 pub mod hsscript;
 pub mod rxscript;
 pub mod txscript;
+pub mod hostile;
+pub mod multi;
+pub mod lifecycle;
